@@ -329,3 +329,34 @@ func tryReplay(r *engine.UnitResult, o *engine.Obligation) (out replayOutcome) {
 	}
 	return
 }
+
+// replayable reports whether a model of this unit's obligations can be replayed by tryReplay.
+func replayable(r *engine.UnitResult) bool {
+	if r == nil || r.Contract == nil || r.Contract.Fn == nil {
+		return false
+	}
+	fn := r.Contract.Fn
+	if fn.Signature.Recv() != nil || len(fn.FreeVars) > 0 || fn.Pkg == nil || fn.Signature.Variadic() {
+		return false
+	}
+	for _, p := range fn.Params {
+		b := basicOf(p.Type())
+		if b == nil || b.Info()&(types.IsString|types.IsBoolean|types.IsInteger) == 0 {
+			return false
+		}
+		if n, ok := p.Type().(*types.Named); ok && n.Obj().Pkg() != nil && n.Obj().Pkg() != fn.Pkg.Pkg {
+			return false
+		}
+	}
+	res := fn.Signature.Results()
+	for i := 0; i < res.Len(); i++ {
+		t := res.At(i).Type()
+		if isErrorType(t) {
+			continue
+		}
+		if b := basicOf(t); b == nil || b.Info()&(types.IsString|types.IsBoolean|types.IsInteger) == 0 {
+			return false
+		}
+	}
+	return true
+}
